@@ -57,6 +57,7 @@ class World:
         self.points_used = {}             # pool index -> set of point keys
         self.warn = lib.budget_warnings()
         self.known_kf2 = 0
+        self.adopt_results = True         # returned expressions re-enter the pool
 
     # -- pool -----------------------------------------------------------------------------------
     def encode(self, m):
@@ -191,7 +192,7 @@ class World:
             b = lib.call(fresh_fn)
             n2 = self.warn.n
             self._compare(d, a, b, budget_hit=(n1 > n0 or n2 > n1))
-        if a.kind == lib.EXPR and expr_result and len(self.models) < 14 and M.size(to_model(a.value)) <= 300:
+        if self.adopt_results and a.kind == lib.EXPR and expr_result and len(self.models) < 14 and M.size(to_model(a.value)) <= 300:
             self.adopt(a.value)
         return a
 
